@@ -51,7 +51,7 @@ impl Property for C13 {
         tier.pick(8_000, 250_000)
     }
     fn rule(&self) -> String {
-        "twin deployments with identical generated parameters (6 decimals, same reserves, ratios, fees, balances; unlimited cw20 allowances for every trader) and the same generated history applied in lock-step. Each op is resolved once against the cw20 world; the cw20 world runs first; the native call attaches exactly the amount the cw20 deployment pulled from the caller in that transaction (sum of TransferFrom{owner = caller} in the transfer log; zero if it pulled nothing or failed). After every op: same success/failure, all positions equal field by field, vAMM State and engine State equal, and equal balance deltas of caller, vault, insurance fund, fee pool and every other known account. Wrong-funds clause: whenever the cw20 twin pulled an amount p > 0 for an OpenPosition, the same native order with p-1 and with p+1 attached is tried on a what-if copy and must not succeed. Fees-from-the-vault clause: whenever the cw20 twin pulled fees from the caller in a ClosePosition, the same native call is also tried on a what-if copy with nothing attached and must not succeed (otherwise the fees came out of the vault). Non-trivial: a history with non-zero fees that contains a reversal or a successful ClosePosition, or a native call with non-zero attached funds followed by a refund to the caller. Distinct by digest of (cfg, ops).".into()
+        "twin deployments with identical generated parameters (6 decimals, same reserves, ratios, fees, balances; unlimited cw20 allowances for every trader) and the same generated history applied in lock-step. Each op is resolved once against the cw20 world; the cw20 world runs first; the native call attaches exactly the amount the cw20 deployment pulled from the caller in that transaction (sum of TransferFrom{owner = caller} in the transfer log; zero if it pulled nothing or failed). After every op: same success/failure, all positions equal field by field, vAMM State and engine State equal, and equal balance deltas of caller, vault, insurance fund, fee pool and every other known account. Wrong-funds clause: whenever the cw20 twin pulled an amount p > 0 for an OpenPosition, the same native order with p-1 and with p+1 attached is tried on a what-if copy: it must be refused, or move the trader's wallet by exactly what the cw20 twin's wallet moved. Fees-from-the-vault clause: whenever the cw20 twin pulled fees from the caller in a ClosePosition, the same native call is also tried on a what-if copy with nothing attached and must not succeed (otherwise the fees came out of the vault). Non-trivial: a history with non-zero fees that contains a reversal or a successful ClosePosition, or a native call with non-zero attached funds followed by a refund to the caller. Distinct by digest of (cfg, ops).".into()
     }
     fn assumptions(&self) -> Vec<String> {
         vec!["the poor trader has the same small wallet in both worlds (and, like everyone, an unlimited cw20 allowance: a cumulative allowance has no native counterpart); a transfer it cannot afford fails on both sides".into()]
@@ -146,28 +146,31 @@ impl Property for C13 {
                 }
             }
             // "a trader is charged the same net amount in both": whenever the cw20 twin pulled something for an order, the same
-            // native order with one unit less or one unit more attached must not go through (what-if copies)
+            // native order with one unit less or one unit more attached is tried on a what-if copy: it is either refused or (an
+            // engine that refunds the excess) moves the trader's wallet by exactly what the cw20 twin's wallet moved
             if let (Act::Open { t, v, buy, margin, lev, limit, directed, .. }, true, true) = (&act, rc.ok && pulled > 0, viol.is_none()) {
-                for wrong in [pulled - 1, pulled + 1] {
-                    if let Some(k) = inn.w.accounts.iter().position(|a| *a == sender) {
+                if let Some(k) = inn.w.accounts.iter().position(|a| *a == sender) {
+                    let delta_c = ic.w.balance(&sender) as i128 - pre_c.bal[k] as i128;
+                    for wrong in [pulled - 1, pulled + 1] {
                         if wrong > pre_n.bal[k] {
                             continue;
                         }
-                    }
-                    let snap = inn.w.snapshot();
-                    let r0 = inn.exec_act(&Act::Open { t: *t, v: *v, buy: *buy, margin: *margin, lev: *lev, limit: *limit, attach: wrong, directed: *directed });
-                    inn.w.restore(&snap);
-                    out.count("native_open_with_wrong_funds_attempts");
-                    if r0.ok {
-                        viol = Some(
-                            Violation::new(
-                                "native_order_accepted_with_wrong_funds",
-                                format!("native OpenPosition succeeds with {} attached although the cw20 twin charges the trader {} for the same order", wrong, pulled),
-                            )
-                            .with("act", "open")
-                            .with("short_by_one", wrong < pulled),
-                        );
-                        break;
+                        let snap = inn.w.snapshot();
+                        let r0 = inn.exec_act(&Act::Open { t: *t, v: *v, buy: *buy, margin: *margin, lev: *lev, limit: *limit, attach: wrong, directed: *directed });
+                        let delta_n = inn.w.balance(&sender) as i128 - pre_n.bal[k] as i128;
+                        inn.w.restore(&snap);
+                        out.count("native_open_with_wrong_funds_attempts");
+                        if r0.ok && delta_n != delta_c {
+                            viol = Some(
+                                Violation::new(
+                                    "native_order_accepted_with_wrong_funds",
+                                    format!("native OpenPosition succeeds with {} attached and moves the trader's wallet by {} although the cw20 twin charges {} for the same order (wallet moved by {})", wrong, delta_n, pulled, delta_c),
+                                )
+                                .with("act", "open")
+                                .with("short_by_one", wrong < pulled),
+                            );
+                            break;
+                        }
                     }
                 }
             }
